@@ -186,7 +186,7 @@ class Ctx:
             raise Broken("recorder timeout %s" % name)
         if p.returncode != 0:
             raise Broken("recorder failed in %s (exit %d): %s" % (name, p.returncode, (p.stdout + p.stderr)[-2000:]))
-        n = sum(1 for _ in open(outp))
+        n = sum(1 for l in open(outp, encoding="utf-8").read().split("\n") if l)
         if n == 0:
             raise Broken("recorder %s produced no events" % name)
         self.stages.append({"stage": name, "kind": "record", "family": family, "events": n, "wall_s": round(time.time() - t, 1)})
@@ -196,7 +196,7 @@ class Ctx:
     def validate(self, name, module_rel, cfg_rel, tracef, family, shards=1, timeout=1800, heap="4g", constants=None):
         """Trace validation: TLC steps through the recorded events; the trace specification
         prints one line VERDICT <json list of failing event indices>; every event must be consumed."""
-        lines = open(tracef).read().splitlines()
+        lines = [l for l in open(tracef, encoding="utf-8").read().split("\n") if l]   # not splitlines(): U+2028/U+0085 occur in texts
         n = len(lines)
         shards = max(1, min(shards, n))
         per = (n + shards - 1) // shards
@@ -242,7 +242,7 @@ class Ctx:
 
     def selftest_binding(self, name, module_rel, cfg_rel, tracef, family, corrupt, constants=None):
         """Binding self-test: corrupt one recorded field; the trace must then be rejected at that event."""
-        lines = open(tracef).read().splitlines()
+        lines = [l for l in open(tracef, encoding="utf-8").read().split("\n") if l]
         idx, newline = corrupt(lines)
         lines[idx] = newline
         p = os.path.join(self.scratch, name + "-corrupt.ndjson")
